@@ -60,23 +60,45 @@ def farr(bits, shape=None, layout=None):
     return relayout(arr if shape is None else arr.reshape(shape), layout)
 
 
+def seeded(seed, shape, errors=False):
+    """contents of a large array, from a seed (a replay file stays small)"""
+    rs = np.random.RandomState(seed)
+    mant = rs.uniform(0.0 if errors else -10.0, 10.0, size=shape)
+    return mant * 10.0 ** rs.randint(-3, 3, size=shape)
+
+
 def make_arr(spec):
-    if spec.get('dtype'):
+    if 'seed' in spec:
+        return relayout(seeded(spec['seed'], tuple(spec['shape'])), spec.get('layout'))
+    if spec.get('idata') is not None:
         arr = np.array(spec['idata'], dtype=spec['dtype']).reshape(tuple(spec['shape']))
         return relayout(arr, spec.get('layout'))
-    return farr(spec['data'], tuple(spec['shape']), spec.get('layout'))
+    arr = farr(spec['data'], tuple(spec['shape']))
+    if spec.get('dtype'):
+        arr = arr.astype(spec['dtype'])
+    return relayout(arr, spec.get('layout'))
+
+
+def make_bins(desc, layout):
+    if isinstance(desc, dict):          # regular grid of a large dimension
+        return relayout(desc['start'] + desc['step'] * np.arange(desc['n'], dtype=float), layout)
+    return farr(desc, None, layout)
 
 
 def make_ds(Dataset, spec):
     shape = tuple(spec['shape'])
     lay = spec.get('layout') or [None, None, None]
+    dts = spec.get('dtype') or ['float64', 'float64']
     if spec.get('scalar'):
         value = np.float64(bits_f64(spec['value'][0]))
         error = np.float64(bits_f64(spec['error'][0]))
+    elif 'seed' in spec:
+        value = relayout(seeded(spec['seed'], shape), lay[0])
+        error = relayout(seeded(spec['seed'] + 1, shape, errors=True), lay[1])
     else:
-        value = farr(spec['value'], shape, lay[0])
-        error = farr(spec['error'], shape, lay[1])
-    bins = OrderedDict((nm, farr(b, None, lay[2])) for nm, b in spec['bins'])
+        value = relayout(farr(spec['value'], shape).astype(dts[0]), lay[0])
+        error = relayout(farr(spec['error'], shape).astype(dts[1]), lay[1])
+    bins = OrderedDict((nm, make_bins(b, lay[2])) for nm, b in spec['bins'])
     dset = Dataset(value, error, bins=bins, name=spec['name'], what=spec['what'])
     if spec.get('mask') is not None:
         dset = dset.mask(np.array(spec['mask'], dtype=bool).reshape(shape))
@@ -125,19 +147,31 @@ def shares(comp, others, with_mask=True):
     return any(np.shares_memory(a, b) for a in mine for b in others)
 
 
+def raw_bytes(arr):
+    '''content of an array, bit for bit (extended precision has padding bytes
+    of arbitrary content: split into two doubles instead)'''
+    arr = np.asarray(arr)
+    if arr.dtype == np.longdouble and np.dtype(np.longdouble).itemsize > 8:
+        with np.errstate(all='ignore'):
+            high = arr.astype(np.float64)
+            low = (arr - high).astype(np.float64)
+        return str(arr.dtype).encode() + high.tobytes() + low.tobytes()
+    return str(arr.dtype).encode() + arr.tobytes()
+
+
 def snap(obj):
     '''deep snapshot of an operand (bit patterns, so NaN == NaN)'''
     from valjean.eponine.dataset import Dataset
     if isinstance(obj, Dataset):
         return ('ds', np.shape(obj.value),
-                np.ma.getdata(obj.value).tobytes(), np.ma.getmaskarray(obj.value).tobytes(),
+                raw_bytes(np.ma.getdata(obj.value)), np.ma.getmaskarray(obj.value).tobytes(),
                 np.shape(obj.error),
-                np.ma.getdata(obj.error).tobytes(), np.ma.getmaskarray(obj.error).tobytes(),
+                raw_bytes(np.ma.getdata(obj.error)), np.ma.getmaskarray(obj.error).tobytes(),
                 isinstance(obj.value, np.ma.MaskedArray),
-                [(k, np.shape(v), np.asarray(v).tobytes()) for k, v in obj.bins.items()],
+                [(k, np.shape(v), raw_bytes(v)) for k, v in obj.bins.items()],
                 obj.name, obj.what)
     if isinstance(obj, np.ndarray):
-        return ('arr', obj.shape, obj.tobytes())
+        return ('arr', obj.shape, raw_bytes(obj))
     return ('num', type(obj).__name__, repr(obj))
 
 
@@ -260,8 +294,8 @@ def expected_error(kind, is_ds, v1, e1, v2, e2):
 
 
 def not_negative(arr, hide):
-    data = np.asarray(np.ma.getdata(arr), dtype=float).reshape(-1)
-    return not any((x < 0) and not h for x, h in zip(data, hide))
+    data = np.asarray(np.ma.getdata(arr)).astype(float).reshape(-1)
+    return not bool(np.any((data < 0) & ~np.asarray(hide, dtype=bool)))
 
 
 def raw_operand(rhs):
@@ -319,6 +353,93 @@ def array_outcome(kind, shape, bins, ashape):
     return False, list(bshape)
 
 
+SMALL = 4096        # datasets up to this size (float64) go to the Coq model cell by cell
+
+
+def dtypes_of(obj):
+    from valjean.eponine.dataset import Dataset
+    if isinstance(obj, Dataset):
+        return [np.asarray(np.ma.getdata(obj.value)).dtype, np.asarray(np.ma.getdata(obj.error)).dtype]
+    if isinstance(obj, np.ndarray):
+        return [obj.dtype]
+    return []
+
+
+def plain_float64(*objs):
+    """small float64 data: what the binary64 model covers cell by cell"""
+    from valjean.eponine.dataset import Dataset
+    for obj in objs:
+        if isinstance(obj, Exception):
+            continue
+        if any(dt != np.float64 for dt in dtypes_of(obj)):
+            return False
+        size = np.size(obj.value) if isinstance(obj, Dataset) else np.size(obj)
+        if size > SMALL:
+            return False
+    return True
+
+
+def coarsest_float(*objs):
+    """finfo of the least precise floating dtype among the operands and the result"""
+    info = np.finfo(np.float64)
+    for obj in objs:
+        for dt in dtypes_of(obj):
+            if dt.kind == 'f' and np.finfo(dt).eps > info.eps:
+                info = np.finfo(dt)
+    return info
+
+
+def vector_cells(kind, is_ds, v1, e1, v2, e2, got_v, got_e, want_v, hide, info):
+    """value = the plain array operation; error = first-order uncorrelated
+    propagation, computed here in float64 from detached copies.  Returns a
+    description of the first bad cell or None."""
+    show = ~np.asarray(hide, dtype=bool)
+    with np.errstate(all='ignore'):
+        same = (got_v == want_v) | (np.isnan(got_v) & np.isnan(want_v))
+        k = np.flatnonzero(show & ~same)
+        if k.size:
+            return (f'value {got_v[k[0]]!r} is not that of the plain array operation '
+                    f'{want_v[k[0]]!r} (cell {int(k[0])} of {got_v.size})')
+        eps = float(info.eps)
+        # the formulas square their terms: compared where neither the terms nor their squares
+        # leave the normal range of the least precise dtype involved
+        low, high = 4 * float(info.tiny) ** 0.5, float(info.max) ** 0.5 / 4
+        if kind in ('add', 'sub'):
+            terms = [e1, e2]
+        elif kind == 'mul':
+            terms = [e1 * v2, e2 * v1]
+        else:
+            terms = [e1 / v2, v1 * e2 / (v2 * v2), v2]
+        if not is_ds:
+            terms = [terms[0]]
+            exp = e1 if kind in ('add', 'sub') else (e1 * np.abs(v2) if kind == 'mul'
+                                                     else e1 / np.abs(v2))
+            what = 'error of the left operand' if kind in ('add', 'sub') else \
+                'error scaled by the magnitude of the factor'
+        elif kind in ('add', 'sub'):
+            exp = np.sqrt(e1 * e1 + e2 * e2)
+            what = 'quadratic sum of the absolute errors'
+        else:
+            res = v1 * v2 if kind == 'mul' else v1 / v2
+            rel = np.abs(res) * np.sqrt((e1 / v1) ** 2 + (e2 / v2) ** 2)
+            direct = np.sqrt((e1 * v2) ** 2 + (e2 * v1) ** 2) if kind == 'mul' else \
+                np.sqrt((e1 / v2) ** 2 + (v1 * e2 / (v2 * v2)) ** 2)
+            exp = np.where((v1 != 0) & (v2 != 0), rel, direct)
+            what = 'quadratic sum of the relative errors'
+        ok_in = np.isfinite(v1) & np.isfinite(v2) & (e1 >= 0) & (e2 >= 0) & np.isfinite(e1) \
+            & np.isfinite(e2) & np.isfinite(exp) & np.isfinite(want_v)
+        for term in terms:
+            ok_in &= (term == 0) | ((np.abs(term) >= low) & (np.abs(term) <= high))
+        tol = max(1e-10, 64 * eps)
+        close = np.abs(got_e - exp) <= tol * np.maximum(np.abs(got_e), np.abs(exp)) + 1e-300
+        k = np.flatnonzero(show & ok_in & ~close)
+        if k.size:
+            i = int(k[0])
+            return (f'error {got_e[i]!r} is not the {what} {exp[i]!r} (cell {i} of {got_e.size}: '
+                    f'v1={v1[i]!r} e1={e1[i]!r} v2={v2[i]!r} e2={e2[i]!r})')
+    return None
+
+
 def oracle_binop(ctx, kind, left, rhs, out, case, expect_raise):
     from valjean.eponine.dataset import Dataset
     tag = f'{kind}-{"ds" if isinstance(rhs, Dataset) else type(rhs).__name__}'
@@ -332,10 +453,10 @@ def oracle_binop(ctx, kind, left, rhs, out, case, expect_raise):
     lval, lerr = np.ma.getdata(left.value), np.ma.getdata(left.error)
     rval, rerr = raw_operand(rhs)
     is_ds = rerr is not None
-    with np.errstate(all='ignore'):
-        want_value = np.asarray(PYOP[kind](np.asarray(lval, dtype=float), rval), dtype=float)
-    got_value = np.asarray(np.ma.getdata(out.value), dtype=float)
-    got_error = np.asarray(np.ma.getdata(out.error), dtype=float)
+    with np.errstate(all='ignore'):     # the plain array operation, in the dtypes of the operands
+        want_value = np.asarray(PYOP[kind](lval, rval)).astype(float)
+    got_value = np.asarray(np.ma.getdata(out.value)).astype(float)
+    got_error = np.asarray(np.ma.getdata(out.error)).astype(float)
     if np.shape(out.value) != np.shape(out.error):
         ctx.oracle_failure(f'{tag}: value and error of the result differ in shape :: {case}',
                            case, key='shape-value-error')
@@ -349,6 +470,15 @@ def oracle_binop(ctx, kind, left, rhs, out, case, expect_raise):
     v1s, e1s, v2s = flat(lval), flat(lerr), flat(rval)
     e2s = flat(rerr) if is_ds else [0.0] * len(v1s)
     gvs, ges, wvs = got_value.reshape(-1), got_error.reshape(-1), want_value.reshape(-1)
+    if not plain_float64(left, rhs, out):
+        # large datasets and other dtypes: the same clauses, vectorised, tolerance of the coarsest dtype
+        bad = vector_cells(kind, is_ds, v1s, e1s, v2s, np.asarray(e2s, dtype=float), gvs, ges, wvs,
+                           hide, coarsest_float(left, rhs, out))
+        if bad:
+            ctx.oracle_failure(f'{tag}: {bad} :: {case}', case,
+                               key=f'{kind}-{"value" if bad.startswith("value") else "error"}-vec')
+            return
+        v1s = []
     for k in range(len(v1s)):
         if hide[k]:
             continue
@@ -408,7 +538,7 @@ def oracle_keeps(ctx, tag, left, out, case, bins):
 
 def same_cells(a, b):
     return np.shape(a) == np.shape(b) and \
-        np.ma.getdata(a).tobytes() == np.ma.getdata(b).tobytes() and \
+        raw_bytes(np.ma.getdata(a)) == raw_bytes(np.ma.getdata(b)) and \
         np.ma.getmaskarray(a).tobytes() == np.ma.getmaskarray(b).tobytes()
 
 
@@ -448,7 +578,7 @@ def oracle_mask(ctx, left, mask, out, case):
         want_mask = np.ma.getmaskarray(orig) | mask     # an earlier mask is kept
         if np.shape(comp) != np.shape(orig) or \
                 not np.array_equal(np.ma.getmaskarray(comp), want_mask) or \
-                np.ma.getdata(comp)[~want_mask].tobytes() != np.ma.getdata(orig)[~want_mask].tobytes():
+                raw_bytes(np.ma.getdata(comp)[~want_mask]) != raw_bytes(np.ma.getdata(orig)[~want_mask]):
             ctx.oracle_failure(f'mask changes cells or does not mask value and error alike :: {case}',
                                case, key='mask-cells')
             return
@@ -465,8 +595,8 @@ def oracle_squeeze(ctx, left, out, case):
     shape = np.shape(left.value)
     want_shape = tuple(n for n in shape if n != 1)
     if np.shape(out.value) != want_shape or np.shape(out.error) != want_shape or \
-            np.ma.getdata(out.value).tobytes() != np.ma.getdata(left.value).tobytes() or \
-            np.ma.getdata(out.error).tobytes() != np.ma.getdata(left.error).tobytes():
+            raw_bytes(np.ma.getdata(out.value)) != raw_bytes(np.ma.getdata(left.value)) or \
+            raw_bytes(np.ma.getdata(out.error)) != raw_bytes(np.ma.getdata(left.error)):
         ctx.oracle_failure(f'squeeze changes cells or keeps a unit dimension :: {case}', case,
                            key='squeeze-cells')
     if left.bins:
@@ -526,6 +656,25 @@ def gen_cells(rng, size, special):
             [canon_bits(gen_err(rng, special)) for _ in range(size)])
 
 
+FAMILIES = [['float32', 'float32'], ['float16', 'float16'], ['longdouble', 'longdouble'],
+            ['int64', 'int64'], ['int32', 'float64'], ['int64', 'float64'], ['float64', 'float32'],
+            ['int16', 'int16']]
+
+
+def gen_cells_exact(rng, size, dts):
+    '''cells every dtype of the family holds exactly (and whose squares, products
+    and quotients stay inside half precision)'''
+    if dts[0].startswith('int'):
+        value = [float(rng.randint(-9, 9)) for _ in range(size)]
+    else:
+        value = [rng.choice([-1, 1]) * 0.5 * rng.randint(1, 16) for _ in range(size)]
+    if dts[1].startswith('int'):
+        error = [float(rng.randint(0, 3)) for _ in range(size)]
+    else:
+        error = [rng.choice([0.0, 0.125, 0.25, 0.5, 1.0]) for _ in range(size)]
+    return [canon_bits(x) for x in value], [canon_bits(x) for x in error]
+
+
 def gen_shape(rng):
     ndim = rng.choice([0, 1, 1, 1, 2, 2, 2, 3])
     while True:
@@ -583,6 +732,9 @@ def gen_rhs(rng, cur, special, nhist):
             spec['idata'] = [INTMIN[dtype] if rng.random() < 0.3 else rng.randint(-9, 9)
                              for _ in range(size)]
             spec['data'] = [canon_bits(float(x)) for x in spec['idata']]
+        elif rng.random() < 0.15:                   # another floating dtype
+            spec['dtype'] = rng.choice(['float32', 'float16', 'longdouble'])
+            spec['data'] = gen_cells_exact(rng, size, [spec['dtype'], spec['dtype']])[0]
         else:
             spec['data'] = [canon_bits(gen_float(rng, special)) for _ in range(size)]
         return spec, None                           # None: decided by array_outcome
@@ -601,7 +753,10 @@ def gen_rhs(rng, cur, special, nhist):
         dshape = list(shape) + [1]
         bad = True
     dsize = int(np.prod(dshape)) if dshape else 1
-    value, error = gen_cells(rng, dsize, special)
+    family = None
+    if dshape and (cur.get('family') and rng.random() < 0.6 or rng.random() < 0.04):
+        family = cur.get('family') if cur.get('family') and rng.random() < 0.8 else rng.choice(FAMILIES)
+    value, error = gen_cells_exact(rng, dsize, family) if family else gen_cells(rng, dsize, special)
     q = rng.random()
     if dshape != list(shape):
         dbins = [] if rng.random() < 0.5 else gen_bins(rng, dshape)
@@ -630,6 +785,8 @@ def gen_rhs(rng, cur, special, nhist):
             'what': cur['what'] if rng.random() < 0.5 else rng.choice(['', 'spam', 'egg', 'flux']),
             'scalar': not dshape and rng.random() < 0.7,
             'layout': [gen_layout(rng), gen_layout(rng), rng.choice(['C', 'C', 'S', 'N'])]}
+    if family:
+        spec['dtype'] = family
     if dshape and dsize and rng.random() < 0.08:
         spec['mask'] = [rng.random() < 0.3 for _ in range(dsize)]
     return {'k': 'ds', 'ds': spec}, bad
@@ -638,16 +795,18 @@ def gen_rhs(rng, cur, special, nhist):
 def gen_case(rng, special=0.0, maxlen=6):
     shape = gen_shape(rng)
     size = int(np.prod(shape)) if shape else 1
-    value, error = gen_cells(rng, size, special)
+    family = rng.choice(FAMILIES) if shape and rng.random() < 0.1 else None
+    value, error = gen_cells_exact(rng, size, family) if family else gen_cells(rng, size, special)
     what = rng.choice(['', 'spam', 'flux', 'k'])
-    left = {'shape': shape, 'value': value, 'error': error,
+    left = {'shape': shape, 'value': value, 'error': error, 'dtype': family,
             'bins': [] if (not shape or rng.random() < 0.15) else gen_bins(rng, shape),
             'name': rng.choice(['', 'ds1', 'tally']), 'what': what,
             'scalar': not shape and rng.random() < 0.7,
             'layout': [gen_layout(rng), gen_layout(rng), rng.choice(['C', 'C', 'S', 'N'])]}
     # one state per dataset of the history: every operation acts on the latest one or
     # (12 %) on an earlier one, all of them stay alive
-    states = [{'shape': list(shape), 'bins': left['bins'], 'what': what, 'masked': False}]
+    states = [{'shape': list(shape), 'bins': left['bins'], 'what': what, 'masked': False,
+               'family': family}]
     ops = []
     for _ in range(rng.randint(1, maxlen)):
         on = None
@@ -688,6 +847,57 @@ def gen_case(rng, special=0.0, maxlen=6):
         states.append(cur)
     if not ops:
         ops.append({'op': 'copy'})
+    return {'left': left, 'ops': ops}
+
+
+LARGE_SHAPES = [[32768], [32769], [65536], [131072], [256, 128], [512, 256], [32, 32, 32],
+                [64, 32, 32], [1, 40000], [3, 11000]]
+
+
+def gen_large_case(rng):
+    '''a few datasets per run with 2^15 .. 2^17 cells (the sizes at which
+    implementations switch to "fast paths"): contents from a seed, chains of
+    dataset / number / array operands, the dataset itself, earlier results,
+    augmented assignments, copy, squeeze; checked by the oracle only'''
+    shape = rng.choice(LARGE_SHAPES)
+    def grid(n):  # noqa
+        return {'start': float(rng.randint(-5, 5)), 'step': rng.choice([1.0, 0.5]),
+                'n': n + rng.choice([0, 1])}
+    bins = [] if rng.random() < 0.3 else [[nm, grid(n)] for nm, n in zip(rng.sample(NAMES, len(shape)), shape)]
+    fast = rng.random() < 0.7           # C-contiguous float64: what a fast path accepts
+    def layout():  # noqa
+        return ['C', 'C', 'C'] if fast else [gen_layout(rng), gen_layout(rng), 'C']
+    left = {'shape': shape, 'seed': rng.randrange(10 ** 6), 'bins': bins, 'name': 'big',
+            'what': rng.choice(['flux', 'k']), 'scalar': False, 'layout': layout()}
+    ops, nds = [], 1
+    for _ in range(rng.randint(2, 4)):
+        r = rng.random()
+        kind = rng.choice(ARITH) if rng.random() < 0.75 else rng.choice(sorted(AUGOP))
+        if rng.random() < 0.5:
+            kind = rng.choice(['add', 'sub'])
+        extra = {'on': rng.randrange(nds - 1)} if nds > 2 and rng.random() < 0.15 else {}
+        if r < 0.45:
+            rhs = {'k': 'ds', 'ds': {'shape': shape, 'seed': rng.randrange(10 ** 6),
+                                     'bins': copy.deepcopy(bins) if rng.random() < 0.6 else [],
+                                     'name': 'other', 'what': rng.choice(['flux', 'egg']),
+                                     'scalar': False, 'layout': layout()}}
+        elif r < 0.55:
+            rhs = {'k': 'self'}
+        elif r < 0.65 and nds > 1:
+            rhs = {'k': 'prev', 'j': rng.randrange(nds)}
+        elif r < 0.80:
+            rhs = {'k': 'float', 'v': canon_bits(rng.choice([-2.0, 0.5, 3.0, -0.25]))}
+        elif r < 0.90:
+            rhs = {'k': 'arr', 'shape': shape, 'seed': rng.randrange(10 ** 6), 'layout': layout()[0]}
+        else:
+            ops.append(dict({'op': rng.choice(['copy', 'squeeze'])}, **extra))
+            nds += 1
+            if ops[-1]['op'] == 'squeeze' and 1 in shape:
+                break               # the shape changes: end of the chain
+            continue
+        ops.append(dict({'op': kind, 'rhs': rhs, 'raises': None if rhs['k'] in ('prev', 'arr') else False},
+                        **extra))
+        nds += 1
     return {'left': left, 'ops': ops}
 
 
@@ -874,7 +1084,7 @@ def run_impl(ctx, case, steps):
         left0 = freeze(left)                    # the operands as they are before the step
         rhs0 = left0 if rhs is left else freeze(rhs)
         theirs = [a for x in operands if x is not left or kind not in AUGOP for a in arrays_of(x)]
-        mrhs = model_rhs(Dataset, rhs0, left0) if kind in BINARY else None
+        mrhs = model_rhs(Dataset, rhs0, left0) if kind in BINARY and plain_float64(left0, rhs0) else None
         with np.errstate(all='ignore'):
             try:
                 if kind in ARITH:
@@ -889,6 +1099,18 @@ def run_impl(ctx, case, steps):
                     out = left.squeeze()
             except Exception as exc:  # noqa
                 out = exc
+        # the same operation on the same operands gives the same result (no hidden state,
+        # no operand quietly used as scratch space)
+        if kind in ARITH and not isinstance(out, Exception):
+            with np.errstate(all='ignore'):
+                try:
+                    again = PYOP[kind](left, rhs)
+                except Exception as exc:  # noqa
+                    again = exc
+            if isinstance(again, Exception) or (well_formed(again) is None and well_formed(out) is None
+                                                and snap(again) != snap(out)):
+                ctx.oracle_failure(f'{kind} (step {opi}) repeated on the same operands gives another '
+                                   f'result :: {case}', case, key='not-repeatable')
         # x op= y may change x itself (in-place operators); nothing else may change
         bad = changed(before, operands, (out,) if kind in AUGOP else ())
         if bad:
@@ -922,6 +1144,19 @@ def run_impl(ctx, case, steps):
             oracle_mask(ctx, left0, mask, out, case)
         else:
             oracle_squeeze(ctx, left0, out, case)
+        modelled = plain_float64(left0, rhs0, out)
+        if not modelled:                # large or not float64: oracle only (the model is binary64)
+            ctx.count('oracle_only_steps')
+            if isinstance(out, Exception):
+                ctx.count('raise_' + type(out).__name__)
+                break
+            for dt in set(map(str, dtypes_of(left0) + dtypes_of(rhs0))) - {'float64'}:
+                ctx.count('dtype_' + dt)
+            if np.size(out.value) > SMALL:
+                ctx.count('large_steps')
+            nontrivial = nontrivial or kind in BINARY
+            hist.append(out)
+            continue
         step = {'ds': ds_json(left0),
                 'mop': {'op': kind, 'rhs': mrhs} if kind in BINARY else
                        ({'op': 'mask', 'm': [bool(x) for x in mask.reshape(-1)]} if kind == 'mask'
@@ -967,11 +1202,14 @@ def run(ctx):
             if fname.endswith('.json'):
                 cases.append(json.load(open(os.path.join(cdir, fname))))
     ctx.count('corpus', len(cases))
-    nrand = 1500 if quick else 20000
+    nrand = 1200 if quick else 20000
     for k in range(nrand):
         special = 0.15 if k % 10 == 9 else 0.0
         cases.append(gen_case(ctx.rng, special=special))
         ctx.count('special_value_chains' if special else 'finite_chains')
+    for _ in range(8 if quick else 60):
+        cases.append(gen_large_case(ctx.rng))
+        ctx.count('large_chains')
     steps = []
     t_impl = time.time()
     for case in cases:
